@@ -107,7 +107,7 @@ Definition rows_of (n : path) (s : store) : list (Z * N) :=
   match find_name n (s_mboxes s) with Some m => map (fun r => (fst r, snd (snd r))) (mb_rows m) | None => [] end.
 Theorem C04_uidvalidity_monotone_refuted :
   exists (clock : nat -> Z) (h1 h2 : list op),
-    let run0 := run (fun l => l) facts_fixed (mkCfg 1000 1000 100000 1000) clock (init_store 100) in
+    let run0 := run (fun l => Some l) facts_fixed (mkCfg 1000 1000 100000 1000) clock (init_store 100) in
     no_restart h1 /\ gen_bound (run0 h1) /\
     (* the name c: re-created after the restart with a smaller value *)
     uidv_of [4%N] (run0 h1) = Some 104 /\ uidv_of [4%N] (run0 (h1 ++ h2)) = Some 101 /\
@@ -127,7 +127,7 @@ Print Assumptions C04_uidvalidity_monotone_refuted.
 Example C04_init_ok : wf (init_store 100) /\ gen_bound (init_store 100).
 Proof. split; [apply wf_init | apply gen_boundb_ok; vm_compute; reflexivity]. Qed.
 Example C04_expunge_highest_then_append :
-  rows_of inbox_name (run (fun l => l) facts_fixed (mkCfg 1000 1000 100000 1000) (fun _ => 100) (init_store 100)
+  rows_of inbox_name (run (fun l => Some l) facts_fixed (mkCfg 1000 1000 100000 1000) (fun _ => 100) (init_store 100)
     [OConnCreate inbox_name; OAppend inbox_name 1%N RemOk; OAppend inbox_name 2%N RemOk; OExpunge inbox_name [2] true;
      ORestart; OAppend inbox_name 3%N RemFail; OAppend inbox_name 3%N RemOk])
   = [(1, 1%N); (3, 3%N)].
